@@ -268,10 +268,29 @@ func c15Hinted(r *fw.Rec, e *csEntry, name, text string, class string) bool {
 	}
 	info := map[string]interface{}{"charset": name, "text": text, "class": class}
 	hints := map[gozxing.EncodeHintType]interface{}{gozxing.EncodeHintType_CHARACTER_SET: name, gozxing.EncodeHintType_ERROR_CORRECTION: "M"}
+	// other well-typed hints next to the character set: they keep their own meaning and take
+	// nothing away from this one (GS1_FORMAT adds the FNC1 indicator; said as false it adds nothing)
+	switch r.Rng.Intn(8) {
+	case 0:
+		hints[gozxing.EncodeHintType_GS1_FORMAT] = false
+		r.Tally("hinted_with_gs1_format_false")
+	case 1:
+		if !strings.Contains(text, "%") { // in a GS1 symbol '%' in alphanumeric mode is the FNC1 escape
+			hints[gozxing.EncodeHintType_GS1_FORMAT] = []interface{}{true, "true"}[r.Rng.Intn(2)]
+			info["gs1_format"] = true
+			r.Tally("hinted_with_gs1_format_true")
+		}
+	case 2:
+		hints[gozxing.EncodeHintType_MARGIN] = 4
+	}
 	img, err := qrcode.NewQRCodeWriter().Encode(text, gozxing.BarcodeFormat_QR_CODE, 0, 0, hints)
 	r.Evals(1)
 	if err != nil {
-		if qrref.MinVersion(len(enc)+3, qrref.Byte, qrref.M) == 0 {
+		over := 3
+		if info["gs1_format"] == true {
+			over = 4 // the FNC1 indicator's four bits
+		}
+		if qrref.MinVersion(len(enc)+over, qrref.Byte, qrref.M) == 0 {
 			return true
 		}
 		r.Violation("roundtrip", "qr.charset:refused-representable-text:"+class, fmt.Sprintf("writer refused text representable in %s: %v", name, err), info)
@@ -553,7 +572,7 @@ func c15(c *fw.Ctx) {
 			for rep := 0; rep < 10; rep++ {
 				var sb strings.Builder
 				n := 1 + rng.Intn(40)
-				kind := rng.Intn(10)
+				kind := rng.Intn(11)
 				if kind == 7 {
 					// long payloads: an ASCII prefix whose length straddles round numbers of bytes
 					// (a decoder that inspects only a prefix of the segment must still see what follows),
@@ -588,6 +607,10 @@ func c15(c *fw.Ctx) {
 						}
 					case 7:
 						sb.WriteRune([]rune{0xE9, 0x3042, 0x4E2D, 0x1F600, 0x439}[rng.Intn(5)])
+					case 10: // code points at the edges of the UTF-8 length classes and the "special" ones: the
+						// replacement character, the last BMP code points, the byte-order mark inside the text,
+						// the first and last astral code points - all of them ordinary scalar values in a string
+						sb.WriteRune([]rune{0xFFFD, 0xFFFD, 0x80, 0x7FF, 0x800, 0xD7FF, 0xE000, 0xFFFE, 0xFFFF, 0xFEFF, 0x10000, 0x10FFFF, 0x4E2D, 'a'}[rng.Intn(14)])
 					case 9: // plain ASCII in byte mode (a lower-case letter): whatever is guessed for it must not outlive the call
 						sb.WriteByte(byte('a' + rng.Intn(26)))
 					case 8: // only four-byte characters, every continuation byte in 0xA0..0xBF (plane 2), between ASCII
@@ -835,6 +858,7 @@ func c15(c *fw.Ctx) {
 	c.Floor("decode_hint_honoured_adversarial_payloads", 400)
 	c.Floor("utf8_nohint_kind_7", 100)
 	c.Floor("utf8_nohint_kind_8", 100)
+	c.Floor("utf8_nohint_kind_10", 100)
 	c.Floor("utf16be_ascii_only_texts", 50)
 	c.Floor("hinted_texts_at_version_capacity", 250)
 	c.Floor("double_byte_codes_covered_Shift_JIS", 6000)
